@@ -160,6 +160,11 @@ def bailout_family():
             for q in poppers:
                 for x in suffixes:
                     out.append(p + s + q + x)
+    # the select command itself carries the area that pops from the newly selected stack
+    for p in prints:
+        for s in ('흑?', '흑!♥', '흑.?', '흑.!', '흑..?', '흑..!♥', '형.. 흑.?', '형.. 흑..?♥', '형.. 흑?♥!♡', '형.. 흐윽.!'):
+            for x in suffixes:
+                out.append(p + s + x)
     # print, register a label, print again through the label (output captured then abandoned)
     out += ['항.♥ 형. 항.♥', '형. 항.♥ 형.. 항.♥ 항.', '흑. 형..?', '형... 항. 흑. 형..? 형.', '형.. 항.♥ 흑 항.♥']
     return out
